@@ -154,7 +154,8 @@ def audit(prop):
     os.makedirs(os.path.join(CACHE, 'audit'), exist_ok=True)
     path = os.path.join(CACHE, 'audit', prop + '.lean')
     with open(path, 'w') as f:
-        f.write('import Hub.Props.%s\n' % prop)
+        for pf in prop_files(prop):
+            f.write('import Hub.Props.%s\n' % os.path.basename(pf)[:-5])
         for n in names:
             f.write('#print axioms %s\n' % n)
     p = run(['lake', 'env', 'lean', path], cwd=LEAN, timeout=1800)
@@ -224,6 +225,21 @@ def hubmodel():
     return os.path.join(LEAN, '.lake', 'build', 'bin', 'hubmodel')
 
 
+def impl_monitors(impl_path):
+    """Search on the implementation: load every implementation state of the stream into the Lean
+    `State` (Hub/Model/Load.lean) and evaluate the executable monitors on it."""
+    with open(impl_path, 'rb') as fi:
+        p = subprocess.run([hubmodel(), '--implmon'], stdin=fi, stdout=subprocess.PIPE, stderr=subprocess.PIPE, timeout=1800)
+    hits = []
+    if p.returncode != 0:
+        return [{'index': 0, 'op': '', 'monitor': 'V implmon-crashed ' + p.stderr.decode(errors='replace')[-200:], 'side': 'impl'}]
+    for line in p.stdout.decode(errors='replace').split('\n'):
+        m = re.match(r'I (\d+) (\S+)(.*?) \| (.*)$', line)
+        if m:
+            hits.append({'index': int(m.group(1)), 'op': m.group(4), 'monitor': 'V ' + m.group(2), 'detail': m.group(3).strip()[:300], 'side': 'impl'})
+    return hits
+
+
 def one_history(workdir, seed, profile, blocks):
     """Generate one history on the real app, replay it on the model, compare. Returns a result dict."""
     tag = '%s_%d' % (profile, seed)
@@ -246,6 +262,7 @@ def one_history(workdir, seed, profile, blocks):
     res['mismatches'] = mism
     res['stats'] = stats
     res['roundtrip'] = cmp.roundtrip_analysis(impl)
+    res['impl_hits'] = impl_monitors(impl)
     return res
 
 
@@ -268,21 +285,21 @@ def one_corpus(workdir, ops):
     res['mismatches'] = mism
     res['stats'] = stats
     res['roundtrip'] = cmp.roundtrip_analysis(impl)
+    res['impl_hits'] = impl_monitors(impl)
     return res
 
 
 def corr_plan(tier, seed):
     """(profile, seed, blocks) triples of a tier, derived from VERIF_SEED."""
-    profiles = ['lifecycle', 'money', 'quota', 'authz', 'gov', 'govdelay', 'extreme', 'genesis']
+    profiles = ['lifecycle', 'money', 'quota', 'authz', 'gov', 'govdelay', 'extreme', 'genesis', 'sessions']
     plan = []
-    if tier == 'quick':
-        for i, p in enumerate(profiles):
-            for j in range(2):
-                plan.append((p, seed * 1000 + i * 10 + j, 90))
-    else:
-        for i, p in enumerate(profiles):
-            for j in range(12):
-                plan.append((p, seed * 1000 + i * 100 + j, 300))
+    # the session-settlement paths need several settled sessions on one subscription: more seeds there
+    per = (lambda p: 6 if p == 'sessions' else 2) if tier == 'quick' else (lambda p: 24 if p == 'sessions' else 12)
+    blocks = 90 if tier == 'quick' else 300
+    step = 10 if tier == 'quick' else 100
+    for i, p in enumerate(profiles):
+        for j in range(per(p)):
+            plan.append((p, seed * 1000 + i * step + j, blocks))
     return plan
 
 
@@ -333,7 +350,24 @@ def summarize(results):
         st = r['stats']
         for k in ('ops', 'accept', 'reject', 'halt'):
             tot[k] += st.get(k, 0)
-        for h in st.get('monitor_hits', []):
+        model_hits = [dict(h, side='model') for h in st.get('monitor_hits', [])]
+        seen = {(h['index'], h['monitor']) for h in model_hits}
+        both = {(h['index'], h['monitor']) for h in r.get('impl_hits', [])} & seen
+        for h in model_hits:
+            if (h['index'], h['monitor']) in both:
+                h['side'] = 'both'
+        impl_only = [h for h in r.get('impl_hits', []) if (h['index'], h['monitor']) not in seen]
+        # only the first failing operation per (side, monitor) of a history is a separate hit
+        merged, first = [], set()
+        for h in sorted(model_hits + impl_only, key=lambda h: h['index']):
+            k = (h['side'] == 'model', h['monitor'])
+            if k in first:
+                continue
+            first.add(k)
+            merged.append(h)
+        if impl_only or model_hits:
+            r['halts'] = True   # keep the files of this history
+        for h in merged:
             try:
                 ops_lines = [l for l in open(r['ops']).read().split('\n') if l.strip() and not l.startswith('#')]
             except OSError:
@@ -419,6 +453,21 @@ def write_evidence(prop, tier, seed, cov, wall, violations, assumptions):
 def write_replay(prop, seed, body):
     os.makedirs(os.path.join(ROOT, 'replays'), exist_ok=True)
     path = os.path.join(ROOT, 'replays', '%s-%d.json' % (prop, seed))
+    # make the replay self-contained: the history prefix up to the failing operation
+    src = (body.get('monitor') or {}).get('ops') or (body.get('mismatch') or {}).get('ops_file') or (body.get('halt') or {}).get('ops')
+    idx = (body.get('monitor') or body.get('mismatch') or body.get('halt') or {}).get('index')
+    if src and os.path.exists(src):
+        out, n = [], 0
+        for l in open(src).read().split('\n'):
+            if l.strip() and not l.startswith('#') and l.split()[0] not in ('init', 'bal', 'key', 'infl'):
+                n += 1
+            out.append(l)
+            if idx and n >= idx:
+                break
+        hist = os.path.join(ROOT, 'replays', '%s-%d.ops' % (prop, seed))
+        open(hist, 'w').write('\n'.join(out) + '\n')
+        body = dict(body, history=hist, history_ops=n,
+                    how_to_replay='harness/bin/hubsim run < %s   (implementation) ; lean/.lake/build/bin/hubmodel < %s   (model) ; lean/.lake/build/bin/hubmodel --implmon < <implementation output>   (monitors on the implementation states)' % (hist, hist))
     with open(path, 'w') as f:
         json.dump(body, f, indent=1)
     return path
@@ -448,6 +497,9 @@ def section_relevant(prop, m):
             if pat == opk or pat == opk + ':' + sub or pat == '*':
                 return True
         return False
+    if m['kind'] == 'events' and op.startswith('query'):
+        sub = op.split()[1] if len(op.split()) > 1 else ''
+        return any(pat in ('query', 'query:' + sub, '*') for pat in PROPS[prop].get('result_ops', []))
     if m['kind'] == 'events':
         return 'events' in proj or any(p.startswith('event:') and p[6:] in json.dumps(m) for p in proj)
     secs = m.get('sections', [])
@@ -470,9 +522,7 @@ def check_property(prop, tier, seed):
         notes.append('translator refused: ' + msg)
 
     # (2) build theorems + driver
-    targets = ['hubmodel']
-    if os.path.exists(os.path.join(LEAN, 'Hub', 'Props', prop + '.lean')):
-        targets.insert(0, 'Hub.Props.' + prop)
+    targets = ['Hub.Props.' + os.path.basename(f)[:-5] for f in prop_files(prop)] + ['hubmodel']
     okb, bout = lake_build(targets)
     build_broken = None
     if not okb:
@@ -518,7 +568,12 @@ def check_property(prop, tier, seed):
     if build_broken is not None:
         violations.append(('proof obligation no longer checks after regeneration', {'tie': 'lake build Hub.Props.' + prop, 'detail': build_broken}))
     for m in rel[:3]:
-        violations.append(('correspondence broken: %s at op %d of %s seed %d' % (m['kind'], m['index'], m['profile'], m['seed']), {'tie': 'T-corr', 'mismatch': m}))
+        body = {'tie': 'T-corr', 'mismatch': m}
+        if (m.get('op') or '').startswith('query') and prop in ('C13', 'C09'):
+            # the model's answer to a listing is the specification (filter + page of the stored records,
+            # Props/C13): a different answer of the implementation is a concrete failing request
+            body['failing_input'] = m['op']
+        violations.append(('correspondence broken: %s at op %d of %s seed %d' % (m['kind'], m['index'], m['profile'], m['seed']), body))
     for h in corr['monitor_hits']:
         if h.get('reimport_before') and prop != 'C12':
             continue   # consequences of the round trip (F5) are C12's findings
@@ -593,7 +648,12 @@ def finish(prop, tier, seed, cov, violations, known_lines, wall):
         print(l)
     write_evidence(prop, tier, seed, cov, wall, len(violations), PROPS[prop].get('assumptions', []))
     if violations:
+        # prefer a violation that comes with a concrete failing input / history as the replay
+        violations.sort(key=lambda v: 0 if (v[1].get('failing_input') or v[1].get('monitor')) else 1)
         msg, body = violations[0]
+        ties = [v[1].get('tie') + ': ' + str(v[1].get('detail', ''))[:300] for v in violations if v[1].get('tie')]
+        if ties:
+            body = dict(body, broken_ties=ties)
         body = dict(body, property=prop, tier=tier, seed=seed, message=msg, all=[v[0] for v in violations])
         found = bool(body.get('failing_input') or body.get('monitor'))
         path = write_replay(prop, seed, body)
